@@ -10,7 +10,7 @@ from rnaverif.runner import D, HarnessError, ShardResult, check_case, run_hypoth
 PROP_ID = "C07"
 LEVEL = "exploration"
 RULE = (
-    "Domains: (a) every matching on <=N positions exhaustively (N=8 quick, 11 thorough); (b) Hypothesis blow-ups "
+    "Domains: (a) every matching on <=N positions exhaustively (N=9 quick, 11 thorough); (b) Hypothesis blow-ups "
     "up to ~150 nt with multiloops, bulges, length-1 stems and pseudoknotted loops. Oracle (reference "
     "decomposition from the statement): stems == maximal stacked runs with mirrored strands (own stem finder); "
     "hairpins == exactly the pairs enclosing only unpaired nucleotides; each loop has >=2 strands, consecutive "
@@ -168,7 +168,7 @@ def classify(case):
 def plan(tier, seed):
     specs = []
     if tier == "quick":
-        N, K, hyp = 8, 8, [(120, 8)] * 8
+        N, K, hyp = 9, 16, [(300, 8)] * 16
     else:
         N, K, hyp = 11, 64, [(2500, 14)] * 16
     for k in range(K):
